@@ -92,7 +92,7 @@ pub fn execute_all(text: &str, ctx: &mut CaseCtx, max_steps: usize) {
     }
 }
 
-fn run_one<D: GD>(d: &mut D, parsed: &garnish_lang_compiler::parse::ParseResult, input: &V, max_steps: usize) -> Result<usize, (&'static str, Panicked)> {
+pub fn run_one<D: GD>(d: &mut D, parsed: &garnish_lang_compiler::parse::ParseResult, input: &V, max_steps: usize) -> Result<usize, (&'static str, Panicked)> {
     let b = match build_g(parsed, d) {
         Err(p) => return Err(("build", p)),
         Ok(Err(_)) => return Ok(0),
